@@ -643,6 +643,10 @@ func (r *runner) compareCall(what string, i int, fn string, args ...uint64) {
 	got := outcome(real.mod.ExportedFunction(fn).Call(r.ctx, args...))
 	want := outcome(twin.mod.ExportedFunction(fn).Call(r.ctx, args...))
 	r.log("%s -> %s (twin %s)", what, got, want)
+	if fn == "viaseg" || fn == "seg" {
+		// A.seg table.inits slot 3 with A.inc: whatever a failed importer left there is overwritten
+		delete(r.leftover, 3)
+	}
 	if fn == "callslot" && len(args) == 2 {
 		if k, ok := r.leftover[int(args[0])]; ok && real.kind == 'A' {
 			// the slot holds the function of a failed importer: mul(x) = x*k, known without the twin (a
